@@ -145,6 +145,11 @@ def object_ops(world, s):
         for m in M_ALT:
             if m != obj.method:
                 ops.append(('set', s, 'method', m))
+    if not multi and world.orig[s][1] != 'complex' and world.gen[s] in ('default', 'max', 'min'):
+        # the documented, settable `step` attribute: another generator object (shared ones) or None (the default)
+        for g in ('default', 'max', 'min'):
+            if g != world.gen[s]:
+                ops.append(('setstep', s, g))
     now = (obj.method, obj.n, obj.order) if not multi else (obj.method, world.orig[s][2], obj.order)
     if now != tuple(world.orig[s][1:4]) and not (cls_of(world.orig[s]) == 'Hessian' and obj.method == world.orig[s][1]):
         ops.append(('restore', s))
@@ -217,6 +222,10 @@ def apply_op(world, op, ms):
         elif kind == 'set':
             _, s, attr, v = op
             setattr(world.slots[s], attr, v)
+        elif kind == 'setstep':
+            _, s, g = op
+            world.slots[s].step = None if g == 'default' else world.shared[g]
+            world.gen[s] = g
         elif kind == 'restore':
             s = op[1]
             cfg = world.orig[s]
